@@ -8,7 +8,7 @@ pub fn prop() -> Prop {
     Prop {
         id: "C16",
         level: "fault_enumeration",
-        rule: "inputs: clean and noisy streams over a 7-value core (1..3 values, 4 separator kinds; thorough adds all pairs) plus three long ones (2500 rows, a 9000-character string, 700 noisy lines) faulted at the first and last 40 offsets and around 255, 256, 1 KiB, 4 KiB, 8 KiB, 16 KiB, 32 KiB, 64 KiB of the input and of the output; faults: the reader fails when asked for the byte at EVERY offset 0..=len (after 0,1,2 Interrupted results; for inputs of <=60 (thorough <=400) bytes also with 8 other io::ErrorKinds: BrokenPipe, ConnectionReset, ConnectionAborted, UnexpectedEof, TimedOut, WouldBlock, InvalidData, PermissionDenied), Interrupted at every offset without failure, stdout fails after accepting EVERY number of bytes 0..len(out) (plain, with 1- and 3-byte short writes, with Interrupted on every 2nd call; for outputs of <=200 bytes also with 7 other io::ErrorKinds, WouldBlock and TimedOut being transient), stderr likewise under --on-error=stderr, unopenable files in every position of a file list; x 4 policies x 11 pipelines (streaming, select, sort, group, --utf8-strings, text, csv, and four with --skip/--take: alone, pretty style, behind a sort, behind split and filter); inputs with \\uXXXX escapes in strings and member names; non-trivial = the fault offset falls strictly inside the input/output; distinct by construction; a file that opens but whose first read fails (/proc/self/mem) in every position of a list of <=3 files",
+        rule: "inputs: clean and noisy streams over a 7-value core (1..3 values, 4 separator kinds; thorough adds all pairs) plus three long ones (2500 rows, a 9000-character string, 700 noisy lines) faulted at the first and last 40 offsets and around 255, 256, 1 KiB, 4 KiB, 8 KiB, 16 KiB, 32 KiB, 64 KiB of the input and of the output; faults: the reader fails when asked for the byte at EVERY offset 0..=len (after 0,1,2 Interrupted results; for inputs of <=60 (thorough <=400) bytes also with 8 other io::ErrorKinds: BrokenPipe, ConnectionReset, ConnectionAborted, UnexpectedEof, TimedOut, WouldBlock, InvalidData, PermissionDenied), Interrupted at every offset without failure, stdout fails after accepting EVERY number of bytes 0..len(out) (plain, with 1- and 3-byte short writes, with Interrupted on every 2nd call; for outputs of <=200 bytes also with 7 other io::ErrorKinds, WouldBlock and TimedOut being transient), stderr likewise under --on-error=stderr, unopenable files in every position of a file list; x 4 policies x 11 pipelines (streaming, select, sort, group, --utf8-strings, text, csv, and four with --skip/--take: alone, pretty style, behind a sort, behind split and filter); inputs with \\uXXXX escapes in strings and member names; non-trivial = the fault offset falls strictly inside the input/output; distinct by construction; a file that opens but whose first read fails (/proc/self/mem) in every position of a list of <=3 files; and (with the real binary under an LD_PRELOAD read(2) shim, when a C compiler is present) a file argument whose read fails after EVERY number of bytes, before and after a readable file, x 4 policies x 5 pipelines",
         explanation: "every fault point of every history is enumerated on the real code with fault-injecting Read/Write implementations; oracle: Err (not Ok, not a panic), the reader is never asked again after its failure, stdout is a prefix of the fault-free stdout; a fault the fault-free run never reaches must change nothing",
         assumptions: COMMON_ASSUMPTIONS.to_vec(),
         guards: vec!["other-write-error-kinds", "file-whose-first-read-fails", "other-error-kinds", "raw-utf8-row-longer-than-60-bytes", "fault-beyond-8192", "read-fault-inside-value", "read-fault-at-eof", "write-fault-inside-row", "interrupted-then-error", "short-writes", "stderr-write-fault", "missing-file"],
@@ -90,6 +90,10 @@ fn offsets(n: usize) -> Vec<usize> {
     v.sort();
     v.dedup();
     v
+}
+
+fn rows_without_diagnostics(out: &[u8]) -> Vec<u8> {
+    out.split_inclusive(|b| *b == b'\n').filter(|l| !l.starts_with(b"error:")).flatten().copied().collect()
 }
 
 fn args(policy: &str, pipe: &[&str]) -> Vec<String> {
@@ -375,4 +379,80 @@ fn run(ctx: &mut Ctx) {
         }
     }
     ctx.level_done("file-whose-first-read-fails");
+
+    // ---- a FILE argument whose read fails after k bytes, for EVERY k: the real binary under an LD_PRELOAD shim that
+    // fails read(2) on that one file (built by ./check when a C compiler is present)
+    match (std::env::var("JAWK_BIN"), std::env::var("JV_READFAIL_SHIM")) {
+        (Ok(bin), Ok(shim)) if std::path::Path::new(&bin).exists() && std::path::Path::new(&shim).exists() => {
+            let contents: [&str; 3] = ["1 [2]\n{\"a\": \"x\"} 4\n", "{\"k\": [1, 2, {\"z\": null}]}\n\"s\" 7", "[1]\n[2]\n[3]\n[4]\n"];
+            for (ci, content) in contents.iter().enumerate() {
+                for policy in POLICIES {
+                    for (pname, pargs) in [("stream", vec![]), ("select", vec!["--select=.=v"]), ("sort", vec!["--sort-by=(stringify .)"]), ("merge", vec!["--merge"]), ("take", vec!["--take=3"])] {
+                        if !ctx.mine() {
+                            continue;
+                        }
+                        let d = crate::drive::work_dir();
+                        let bad = d.join(format!("half{ci}.json"));
+                        let good = d.join("whole.json");
+                        std::fs::write(&bad, content).unwrap();
+                        std::fs::write(&good, "[9]\n").unwrap();
+                        let bad_s = std::fs::canonicalize(&bad).unwrap().to_string_lossy().into_owned();
+                        for order in 0..2usize {
+                            let mut a = args(policy, &pargs);
+                            if order == 0 {
+                                a.push(bad_s.clone());
+                                a.push(good.to_string_lossy().into_owned());
+                            } else {
+                                a.push(good.to_string_lossy().into_owned());
+                                a.push(bad_s.clone());
+                            }
+                            let ff = match crate::drive::run_child_env(&bin, &a, b"", crate::drive::OutMode::Pipe, &[]) {
+                                Ok(c) => c,
+                                Err(e) => {
+                                    ctx.machinery_error(format!("cannot run child: {e}"));
+                                    return;
+                                }
+                            };
+                            for k in 0..content.len() {
+                                let env = [("LD_PRELOAD", shim.clone()), ("JV_FAIL_PATH", bad_s.clone()), ("JV_FAIL_AT", k.to_string())];
+                                let c = match crate::drive::run_child_env(&bin, &a, b"", crate::drive::OutMode::Pipe, &env) {
+                                    Ok(c) => c,
+                                    Err(e) => {
+                                        ctx.machinery_error(format!("cannot run child: {e}"));
+                                        return;
+                                    }
+                                };
+                                ctx.rep.evaluations += 1;
+                                ctx.case_done();
+                                ctx.trace_validated();
+                                ctx.nontrivial();
+                                ctx.guard("file-read-fails-half-way");
+                                ctx.state(&("file-read", pname, policy, k.min(40), order));
+                                // with --take the run may stop before the failing offset is reached
+                                let reached = pname != "take" || c.stdout != ff.stdout || c.code != Some(0);
+                                let rcase = Case { args: a.clone(), input: Input::Stdin(format!("<{bad_s} fails after {k} bytes>").into_bytes()), rplan: ReadPlan::default(), wplan: WritePlan::default() };
+                                let brief = format!("exit={:?} stdout={:?} stderr={:?}", c.code, crate::drive::trunc(&String::from_utf8_lossy(&c.stdout), 160), crate::drive::trunc(&String::from_utf8_lossy(&c.stderr), 160));
+                                let sig = format!("file read fails half way, policy {policy} pipeline {pname} file #{order}");
+                                if c.timed_out || c.code == Some(101) || c.signal.is_some() {
+                                    ctx.violation("read-fault-panic", &sig, &[rcase], "an error exit".into(), brief);
+                                } else if reached && c.code == Some(0) {
+                                    ctx.violation("read-fault-mistaken-for-eof-or-skipped", &sig, &[rcase], "a non-zero exit status (the run must stop and report)".into(), brief);
+                                } else if reached && c.stderr.is_empty() {
+                                    ctx.violation("read-fault-mistaken-for-eof-or-skipped", &sig, &[rcase], "a message on standard error".into(), brief);
+                                } else if (pname == "stream" || pname == "select" || pname == "take") && !ff.stdout.starts_with(&rows_without_diagnostics(&c.stdout)) && policy != "stdout" {
+                                    ctx.violation("output-not-a-prefix", &sig, &[rcase], format!("a prefix of {:?}", String::from_utf8_lossy(&ff.stdout)), brief);
+                                } else {
+                                    ctx.outcome("read-fault-err");
+                                }
+                            }
+                        }
+                        let _ = std::fs::remove_file(&bad);
+                        let _ = std::fs::remove_file(&good);
+                    }
+                }
+            }
+            ctx.level_done("file-read-fails-after-every-number-of-bytes(real-binary-under-a-read-shim)");
+        }
+        _ => ctx.note("file-read-faults-half-way", "skipped: no C compiler to build the read(2) shim, or no jawk binary".into()),
+    }
 }
